@@ -167,8 +167,9 @@ func (t *basicTaskBase) startBasicTask() (err error) {
 		_, errStderr = io.Copy(stderr, stderrIn)
 	}()
 
+	// Kill() may reset t.taskCmd at any time, the goroutine below must keep its own reference
+	taskCmd := t.taskCmd
 	go func() {
-		taskCmd := t.taskCmd
 		err = taskCmd.Wait()
 		// ^ when this unblocks, the task is done
 
